@@ -611,7 +611,11 @@ class Session:
         if op in ("simulate", "importance"):
             return self.step_create(rep, i, st, perts, enc)
         if op in ("update", "regenerate", "index_edit", "static_edit", "empty_edit"):
-            return self.step_edit(rep, i, st, perts, enc)
+            ev = self.step_edit(rep, i, st, perts, enc)
+            if self.script.get("pid") == "C34" and ev.get("outcome") == "ok" and self.script.get("missing_sites"):
+                # C34 profile: the sub-traces of every edited trace are inspected at once
+                self.step_subtrace(rep, i, {"src": st["out"]})
+            return ev
         if op == "undo":
             return self.step_undo(rep, i, st, perts, enc)
         if op == "project":
@@ -1233,6 +1237,7 @@ class Session:
         if sr is None:
             return {"op": "subtrace", "outcome": "skipped:not-static"}
         n_ok = 0
+        total = 0.0
         for s in sr["stmts"]:
             a = s["addr"]
             key = a[0] if len(a) == 1 else tuple(a)
@@ -1268,6 +1273,17 @@ class Session:
                 elif not obs.close(sc.sum() if sc.shape else sc, sum(parts)):
                     self.viol("C34.subtrace-score", {"C34"}, i, rep, "subtrace %r score %s vs call contribution %.6f" % (key, sc, sum(parts)))
             n_ok += 1
+            try:
+                total += float(np.asarray(sc).sum())
+            except Exception:
+                total = None
+        # every call site of the function was reached: the contributions add up to
+        # the parent's (cached) score
+        if total is not None and n_ok == len(sr["stmts"]) and n_ok > 0 and unwrap(self.node)["k"] in ("static", "mix", "vmap", "repeat", "scan"):
+            self.probe("subtrace:sum-checked")
+            ps = float(np.asarray(src.tr.get_score()))
+            if np.isfinite(ps) and not obs.close(total, ps):
+                self.viol("C34.subtrace-sum", {"C34"}, i, rep, "sub-trace scores add up to %.6f but the parent's score is %.6f" % (total, ps))
         self.probe("subtrace:checked", n_ok)
         if batch is not None:
             self.probe("subtrace:stacked", n_ok)
